@@ -232,6 +232,19 @@ Definition recv_final_ack (size : Z) (s : list N) : fack :=
   | Some st => if st >? size then FCancel else FForward st (st =? size)
   end.
 
+(* the loop of pipelineRecvFinalAck over the responses that arrive: steps forwarded, and how
+   it ended (Some true = success signalled, Some false = cancelled, None = waiting for more) *)
+Fixpoint recv_final_acks (size : Z) (ls : list (list N)) : list Z * option bool :=
+  match ls with
+  | [] => ([], None)
+  | s :: r =>
+    match recv_final_ack size s with
+    | FCancel => ([], Some false)
+    | FForward st true => ([st], Some true)
+    | FForward st false => let '(f, e) := recv_final_acks size r in (st :: f, e)
+    end
+  end.
+
 (* pipelineRecvHashAck: the step is shown BEFORE it is compared with size *)
 Inductive hack := HAStop | HAShow (step : Z) (done cancel : bool).
 Definition recv_hash_ack (size : Z) (step : Z) (matched : bool) : hack :=
@@ -248,6 +261,27 @@ Definition bar_columns_unfixed (term pane : Z) : Z := bar_columns_of term pane.
 
 (* recvConfig: int32 JSON field, default 0 *)
 Definition recv_config_pane (j : jnum) : option Z := json_int 32 0 j.
+
+(* recvConfig as a whole: any field that fails to decode fails the configuration *)
+Definition recv_config (jb jp jt jpr : jnum) : option (Z * Z * Z * Z) :=
+  match recv_config_bufsize jb, recv_config_pane jp, json_int 64 Consts.guards_default_timeout jt, json_int 64 0 jpr with
+  | Some b, Some p, Some t, Some pr => Some (b, p, t, pr)
+  | _, _, _, _ => None
+  end.
+
+(* parseTrzszVersion on the three components *)
+Definition parse_version (a b c : list N) : option (Z * Z * Z) :=
+  match parse_uint32 a, parse_uint32 b, parse_uint32 c with
+  | Some x, Some y, Some z => Some (x, y, z)
+  | _, _, _ => None
+  end.
+
+(* unmarshalTargetFile: int64 field, default 0, negative rejected *)
+Definition target_size (j : jnum) : option Z :=
+  match json_int 64 0 j with
+  | Some v => if v <? 0 then None else Some v
+  | None => None
+  end.
 
 (* ------------------------------------------------------------------------------------ *)
 (* every peer-controlled number: where it goes and what stands in front *)
